@@ -187,6 +187,15 @@ func (c *Counter) Add(n int64) {
 			return
 
 		case !state.havePtr():
+			if state.readers() > 0 {
+				// Readers are still draining after an invalidate; the last
+				// one will upgrade to the lock and flush extra.
+				if !c.state.update(&state, state.addExtra(uint64(n))) {
+					continue
+				}
+				debugPrintf("Add %q += %d: draining extra=%d\n", c.name, n, state.extra())
+				return
+			}
 			if !c.state.update(&state, state.addExtra(uint64(n)).setLocked()) {
 				continue
 			}
